@@ -1,0 +1,30 @@
+//go:build verif
+
+package verifhook
+
+import (
+	"github.com/linkedin/Burrow/core/internal/storage"
+	"github.com/linkedin/Burrow/core/protocol"
+)
+
+// Storage is a synchronous handle on a real InMemoryStorage module.
+type Storage struct {
+	m *storage.InMemoryStorage
+}
+
+// NewStorage builds a storage module without worker goroutines.
+func NewStorage(app *protocol.ApplicationContext, intervals int, expireGroup, minDistance int64, allowlist, denylist string, clusters []string) *Storage {
+	return &Storage{m: storage.VerifNewInMemory(app, intervals, expireGroup, minDistance, allowlist, denylist, clusters)}
+}
+
+// Handle executes one request synchronously.
+func (s *Storage) Handle(r *protocol.StorageRequest) bool { return s.m.VerifHandle(r) }
+
+// Accept is acceptConsumerGroup.
+func (s *Storage) Accept(group string) bool { return s.m.VerifAcceptConsumerGroup(group) }
+
+// ShiftTimes moves stored commit times back by deltaMs.
+func (s *Storage) ShiftTimes(deltaMs int64) { s.m.VerifShiftTimes(deltaMs) }
+
+// Module returns the underlying module (implements protocol.Module and the storage Module interface).
+func (s *Storage) Module() *storage.InMemoryStorage { return s.m }
